@@ -433,6 +433,7 @@ class Interp:
                     env.parent = self.module_env
                 env.vars.update(args)
                 env.vars["caller"] = CallerProxy(frame)
+                env.vars["__frame"] = frame  # lexical: the frame of the callable that contains nested call tags
                 self.hoist(node["body"], env)
                 try:
                     self.run(node["body"], env)
@@ -470,6 +471,7 @@ class Interp:
         # top-level defs are module-level callables: visible from every def
         self.hoist(self.prog["body"], self.module_env, toplevel=True)
         env.vars["caller"] = CallerProxy(None)
+        env.vars["__frame"] = None
         self.frames.append(None)
         try:
             try:
@@ -493,7 +495,7 @@ class Interp:
     def step(self, n, env):
         t = n["t"]
         self.steps += 1
-        if self.steps > 20000:
+        if self.steps > 60000:
             raise RuntimeError("reference step limit")
         if self.hook:
             self.hook("node", n, self, env)
@@ -603,7 +605,11 @@ class Interp:
                     env.vars.pop("loop", None)
 
     def do_ccall(self, n, env):
-        callframe = self.frames[-1]  # caller of the callable that contains the call tag
+        callframe = None  # caller of the callable that lexically contains the call tag
+        for e in env.chain()[::-1]:
+            if "__frame" in e.vars:
+                callframe = e.vars["__frame"]
+                break
         interp = self
         members = {}
         defenv = Env(env)
